@@ -1169,56 +1169,47 @@ def modelledHandlers : List (Nat × String) :=
    (Gen.Handlers.handleBuffiter, "_handle_buffiter"), (Gen.Handlers.handleOldslicing, "_handle_oldslicing"),
    (Gen.Handlers.handleCtxexit, "_handle_ctxexit"), (Gen.Handlers.handleInstancecheck, "_handle_instancecheck")]
 
-def modelledParams : List (String × List (String × Bool)) :=
-  [("_handle_buffiter", [("obj", false), ("count", false)]),
-   ("_handle_call", [("obj", false), ("args", false), ("kwargs", true)]),
-   ("_handle_callattr", [("obj", false), ("name", false), ("args", false), ("kwargs", true)]),
-   ("_handle_close", []),
-   ("_handle_cmp", [("obj", false), ("other", false), ("op", true)]),
-   ("_handle_ctxexit", [("obj", false), ("exc", false)]),
-   ("_handle_del", [("obj", false), ("count", true)]),
-   ("_handle_delattr", [("obj", false), ("name", false)]),
-   ("_handle_dir", [("obj", false)]),
-   ("_handle_getattr", [("obj", false), ("name", false)]),
-   ("_handle_getroot", []),
-   ("_handle_hash", [("obj", false)]),
-   ("_handle_inspect", [("id_pack", false)]),
-   ("_handle_instancecheck", [("obj", false), ("other_id_pack", false)]),
-   ("_handle_oldslicing", [("obj", false), ("attempt", false), ("fallback", false), ("start", false), ("stop", false), ("args", false)]),
-   ("_handle_pickle", [("obj", false), ("proto", false)]),
-   ("_handle_ping", [("data", false)]),
-   ("_handle_repr", [("obj", false)]),
-   ("_handle_setattr", [("obj", false), ("name", false), ("value", false)]),
-   ("_handle_str", [("obj", false)])]
+/-- (handler, required positional arguments, all positional arguments) the handler functions above bind against: each
+matches argument lists of exactly these lengths and answers `TypeError` otherwise (compare `Gen.Handlers.handlerArity`;
+parameter NAMES are not behaviour: the wire carries positions) -/
+def modelledArity : List (String × Nat × Nat) :=
+  [("_handle_buffiter", 2, 2), ("_handle_call", 2, 3), ("_handle_callattr", 3, 4),
+   ("_handle_close", 0, 0), ("_handle_cmp", 2, 3), ("_handle_ctxexit", 2, 2),
+   ("_handle_del", 1, 2), ("_handle_delattr", 2, 2), ("_handle_dir", 1, 1),
+   ("_handle_getattr", 2, 2), ("_handle_getroot", 0, 0), ("_handle_hash", 1, 1),
+   ("_handle_inspect", 1, 1), ("_handle_instancecheck", 2, 2), ("_handle_oldslicing", 6, 6),
+   ("_handle_pickle", 2, 2), ("_handle_ping", 1, 1), ("_handle_repr", 1, 1),
+   ("_handle_setattr", 3, 3), ("_handle_str", 1, 1)]
 
-/-- the primitive touches of every handler body the model was transcribed from (compare `Gen.Handlers.handlerTouches`) -/
+/-- the normalised primitive touches of every handler the model was transcribed from (compare
+`Gen.Handlers.handlerTouches`: private helpers followed, locals anonymous, re-raises and exception constructors ignored) -/
 def modelledTouches : List (String × List String) :=
   [("_handle_buffiter", ["itertools.islice", "tuple"]),
-   ("_handle_call", ["<call:var>", "<kwsplat>", "<splat>", "TypeError", "dict", "raise:TypeError", "type"]),
-   ("_handle_callattr", ["self._handle_call", "self._handle_getattr"]),
+   ("_handle_call", ["<call>", "<kwsplat>", "<splat>", "dict", "raise:TypeError", "type"]),
+   ("_handle_callattr", ["<call>", "<kwsplat>", "<splat>", "dict", "raise:TypeError", "self._access_attr", "type"]),
    ("_handle_close", ["self._cleanup"]),
-   ("_handle_cmp", ["<call:expr>", "raise", "self._access_attr", "type"]),
-   ("_handle_ctxexit", ["<call:expr>", "raise:<var>", "self._handle_getattr", "sys.exc_info", "truth:<var>"]),
-   ("_handle_del", ["TypeError", "get_id_pack", "raise:TypeError", "self._local_objects.decref", "type"]),
+   ("_handle_cmp", ["<call>", "self._access_attr", "type"]),
+   ("_handle_ctxexit", ["<call>", "raise:<var>", "self._access_attr", "sys.exc_info", "truth:<var>"]),
+   ("_handle_del", ["get_id_pack", "raise:TypeError", "self._local_objects.decref", "type"]),
    ("_handle_delattr", ["self._access_attr"]),
    ("_handle_dir", ["dir", "tuple"]),
    ("_handle_getattr", ["self._access_attr"]),
    ("_handle_getroot", []),
    ("_handle_hash", ["hash"]),
-   ("_handle_inspect", ["<var>.sync_request", "get_methods", "hasattr", "index:self._local_objects", "tuple"]),
-   ("_handle_instancecheck", ["<call:var>", "<var>.sync_request", "hasattr", "index:netref.builtin_classes_cache",
+   ("_handle_inspect", [".sync_request", "get_methods", "hasattr", "index:self._local_objects", "tuple"]),
+   ("_handle_instancecheck", [".sync_request", "<call>", "hasattr", "index:netref.builtin_classes_cache",
       "index:self._netref_classes_cache", "isinstance"]),
-   ("_handle_oldslicing", ["<call:var>", "<splat>", "self._handle_getattr", "slice"]),
-   ("_handle_pickle", ["ValueError", "bytes", "pickle.dumps", "raise:ValueError"]),
+   ("_handle_oldslicing", ["<call>", "<splat>", "self._access_attr", "slice"]),
+   ("_handle_pickle", ["bytes", "pickle.dumps", "raise:ValueError"]),
    ("_handle_ping", []),
    ("_handle_repr", ["repr"]),
    ("_handle_setattr", ["self._access_attr"]),
    ("_handle_str", ["str"])]
 
-/-- everything `netref.class_factory` calls (compare `Gen.Handlers.classFactoryCalls`): the name of a proxied class is
-resolved with `sys.modules.get` and one `getattr` — `classLookup` above; nothing in this list imports -/
+/-- everything `netref.class_factory` does, helpers followed (compare `Gen.Handlers.classFactoryCalls`): the name of a
+proxied class is resolved with `sys.modules.get` and one `getattr` — `classLookup` above; nothing in this list imports -/
 def modelledClassFactoryCalls : List String :=
-  ["<call:expr>", "NetrefClass", "_make_method", "_normalized_builtin_types.get", "getattr", "hasattr",
-   "index:id_pack", "len", "str", "sys.modules.get", "type"]
+  ["<call>", "NetrefClass", "_make_method", "_normalized_builtin_types.get", "getattr", "hasattr",
+   "len", "str", "sys.modules.get", "type"]
 
 end Rpyc.Handlers
